@@ -177,6 +177,8 @@ def apply_op(m, lcf, ab, slots, o, x, y, z, w, step_no):
                 t['eps'] = [(a, s) for a, s in t['eps'] if a is not obj]
     elif o == 2:
         pa, qa = slots[x % len(slots)], slots[y % len(slots)]
+        if not (ab.live(pa) and ab.live(qa)):
+            return ''          # linking an asset that is not (or no longer) in the model: outside the property
         valid = ab.live(pa) and ab.live(qa) and not any(
             any(u is pa for u in l['p']) and any(u is qa for u in l['q']) for l in ab.links)
         assoc = None
@@ -366,9 +368,16 @@ def queries(tier):
         qs.append(Query(name='attadd', body=body_hist, params=ps4, cubes=[{'k': 2, '_fixed': {'o0': 5, 'o1': 0, 'l12': False, 'l00': False, 'pk': False}}],
                         pre=['x0 <= 2'], timeout=600, witnesses=[({'k': 2, '_fixed': {'o0': 5, 'o1': 0, 'l12': False, 'l00': False, 'pk': False}}, w4)],
                         bound='add_attacker with id None / 0 / 7 followed by add_asset with every id/name pick (assets and attackers draw ids from one counter)'))
+        ps5 = [B('att'), I('x0', 0, 4), I('y0', 0, 3), I('o1', 0, len(OPS) - 1), I('x1', 0, 4), I('y1', 0, 3)]
+        base5 = {'x2': True, 'l01': False, 'l12': False, 'l00': True, 'pk': False, 'ps': True, 'nm': False, 'z0': 0, 'z1': 0}
+        c5 = [{'k': 2, '_fixed': dict(base5, o0=o)} for o in (1, 4)]
+        qs.append(Query(name='pack2', body=body_hist, params=ps5, cubes=c5, pre=['o1 == 1 or o1 == 4 or o1 == 3'],
+                        timeout=600, witnesses=[(c5[0], {'att': True, 'x0': 2, 'y0': 0, 'o1': 1, 'x1': 0, 'y1': 0})],
+                        bound='association p=[a0,a1], q=[a0,a2] (asset 0 in both fields): every pair of removals (remove_asset, remove_asset_from_association, '
+                              'then also remove_association) with every argument'))
     return qs + [Query(name='hist', body=body_hist, params=ps, cubes=[{'k': k}], split=['o0', 'x0'] if k == 1 else ['o0', 'o1'],
                        pre=['not ps or (l00 and x2 and not pk and not l12)', 'not nm or (not l12 and not l00 and not pk)'] if k == 1 else
-                       ['x2 and att', 'not ps or (l00 and not pk and not l12)', 'not nm or (not l12 and not l00 and not pk)'],
+                       ['x2 and att and not l12 and not pk', 'not ps or l00', 'not nm or not l00'],
                   timeout=600 if tier == 'quick' else 1700, witnesses=wit,
                   bound='language L_MINI (type N, self-association PQ(p,q)); pre-state from 7 bits (third asset, links 0-1, 1-2, self-link 0-0 alone or with other members in both fields, one association '
                         'holding two assets in one field, attacker with an entry point), built through the API; then every sequence of %d operation(s) from %s '
